@@ -220,11 +220,18 @@ def decide(prop, spec, tier, seed, t0, replay=None):
     evaluations, nontrivial, mon_evals = 0, 0, 0
     diffs = []
     mon_fails = []
+    gen_died = []
     for suite in spec["suites"]:
         count = COUNTS[suite][0 if tier == "quick" else 1]
         t1 = time.time()
         cases, impl, model = vlib.run_suite(suite, seed, tier, count)
         n = len(cases)
+        if n == 1 and cases[0].startswith("<generator"):
+            # the case generator died inside the library: nothing can be run; reported as a broken correspondence
+            gen_died.append((suite, impl[0]))
+            suite_stats[suite] = {"cases": 0, "distinct": 0, "distinct_nontrivial": 0, "disagreements": 1,
+                                  "rule": nontrivial_rule(suite), "wall_s": round(time.time() - t1, 1), "generator": impl[0][:400]}
+            continue
         evaluations += n
         seen = set()
         nt = 0
@@ -303,6 +310,11 @@ def decide(prop, spec, tier, seed, t0, replay=None):
             "replay_cmd": f"bin/check {prop} --replay <this file>"})
         violations.append(("monitor", rp, True))
         reported += 1
+    for suite, msg in gen_died:
+        rp = vlib.write_replay(prop, f"generator-{suite}", {
+            "property": prop, "kind": "correspondence-broken", "suite": suite,
+            "note": "the case generator of this suite died inside the library under test, no case could be run", "output": msg})
+        violations.append(("correspondence", rp, False))
     if not mon_fails and (diffs or broken_proof):
         # a proof obligation or the correspondence is broken but no monitor failed: the replay names what no longer checks
         if diffs:
